@@ -24,6 +24,8 @@ type L1Req struct {
 	ExpectLen bool   `json:"expect_len,omitempty"` // blob GET: pass the known length
 	Partial   bool   `json:"partial,omitempty"`    // read only the first byte, then Close
 	GapMs     int    `json:"gap_ms,omitempty"`     // pause before the request
+	Ctx       string `json:"ctx,omitempty"`        // "" live | cancelled (before the call) | cancel-at (CtxK-th request of this logical request) | deadline (CtxK ms)
+	CtxK      int    `json:"ctx_k,omitempty"`
 }
 
 // Case is the unit that is generated, saved and replayed.
@@ -33,6 +35,12 @@ type Case struct {
 	DelayInitMs int        `json:"delay_init_ms"`
 	DelayMaxMs  int        `json:"delay_max_ms"` // 0 = leave unset (30 x init)
 	Creds       bool       `json:"creds,omitempty"`
+	RepoAuth    bool       `json:"repo_auth,omitempty"`
+	Alias       string     `json:"alias,omitempty"`      // "" | names | dockerhub: configured Name differs from Hostname
+	DupMirror   bool       `json:"dup_mirror,omitempty"` // the first mirror is listed twice
+	Slots       int        `json:"slots,omitempty"`      // reqConcurrent (0 = 8 at L1, 100 at L2; 3 is the library default)
+	ReqPerSec   int        `json:"req_per_sec,omitempty"`
+	Defaults    bool       `json:"defaults,omitempty"` // L1: no WithRetryLimit / WithDelay (what every CLI does): limit 5, 100 ms, 30 s
 	Up          HostSpec   `json:"up"`
 	Mirrors     []HostSpec `json:"mirrors,omitempty"`
 	// L1
@@ -80,7 +88,7 @@ type l1LR struct {
 }
 
 func newWorld(c Case) *world {
-	w := &world{m: rm.New(), t0: time.Now(), spec: map[string]HostSpec{}, host: map[string]*rm.Host{}, blobLen: map[string]int{}, limit: c.Limit, nMirror: len(c.Mirrors)}
+	w := &world{m: rm.New(), t0: time.Now(), spec: map[string]HostSpec{}, host: map[string]*rm.Host{}, blobLen: map[string]int{}, limit: c.Limit, nMirror: len(c.Mirrors), dupFirst: c.DupMirror}
 	w.dInit, _ = c.delays()
 	for i, ms := range c.Mirrors {
 		n := mirrorName(i)
@@ -142,7 +150,7 @@ func runL1Once(c Case, ev *evid.Collector) (vs []*evid.Violation, inconclusive s
 	man := []byte(l1Manifest)
 	for _, n := range w.names {
 		if w.spec[n].Has == "has" {
-			r := w.host[n].Repo(repoSrc)
+			r := w.host[n].Repo(w.repoOn(n, repoSrc))
 			r.Blobs[blobDig] = blob
 			d := rm.ManifestDigest("sha256", rm.MTOCIManifest, man)
 			r.Manifests[d] = &rm.Manifest{MediaType: rm.MTOCIManifest, Body: man}
@@ -152,11 +160,17 @@ func runL1Once(c Case, ev *evid.Collector) (vs []*evid.Violation, inconclusive s
 	w.installFaults()
 
 	hosts := configHosts(c, l1Slots)
+	slots := l1Slots
+	if c.Slots > 0 {
+		slots = c.Slots
+	}
 	dI, dM := c.delays()
-	cl := reghttp.NewClient(
-		reghttp.WithHTTPClient(w.m.Client()),
-		reghttp.WithRetryLimit(c.Limit),
-		reghttp.WithDelay(dI, dM),
+	copts := []reghttp.Opts{reghttp.WithHTTPClient(w.m.Client())}
+	if !c.Defaults {
+		// (every CLI of the repository builds its client WITHOUT these two options)
+		copts = append(copts, reghttp.WithRetryLimit(c.Limit), reghttp.WithDelay(dI, dM))
+	}
+	cl := reghttp.NewClient(append(copts,
 		reghttp.WithConfigHostFn(func(name string) *config.Host {
 			if h, ok := hosts[name]; ok {
 				return h
@@ -164,7 +178,7 @@ func runL1Once(c Case, ev *evid.Collector) (vs []*evid.Violation, inconclusive s
 			h := config.HostNewName(name)
 			hosts[name] = h
 			return h
-		}),
+		}))...,
 	)
 	ctx, cancel := context.WithTimeout(context.Background(), 240*time.Second)
 	defer cancel()
@@ -176,7 +190,7 @@ func runL1Once(c Case, ev *evid.Collector) (vs []*evid.Violation, inconclusive s
 			time.Sleep(time.Duration(rq.GapMs) * time.Millisecond)
 		}
 		lr := &l1LR{req: rq, hasHosts: map[string]bool{}}
-		req := &reghttp.Req{MetaKind: reqmeta.Query, Host: upName, Method: rq.Method, Repository: repoSrc, NoMirrors: rq.NoMirrors, IgnoreErr: rq.IgnoreErr}
+		req := &reghttp.Req{MetaKind: reqmeta.Query, Host: c.cname(upName), Method: rq.Method, Repository: repoSrc, NoMirrors: rq.NoMirrors, IgnoreErr: rq.IgnoreErr}
 		// what the eligible hosts hold right now (raw model state)
 		eligible := w.names
 		if rq.NoMirrors {
@@ -188,7 +202,7 @@ func runL1Once(c Case, ev *evid.Collector) (vs []*evid.Violation, inconclusive s
 			req.Path = "blobs/" + blobDig
 			lr.expected = blob
 			for _, n := range eligible {
-				if r, ok := w.host[n].Repos[repoSrc]; ok {
+				if r, ok := w.host[n].Repos[w.repoOn(n, repoSrc)]; ok {
 					if _, ok := r.Blobs[blobDig]; ok {
 						lr.anyHas = true
 						lr.hasHosts[n] = true
@@ -200,7 +214,7 @@ func runL1Once(c Case, ev *evid.Collector) (vs []*evid.Violation, inconclusive s
 			req.Headers = http.Header{"Accept": {rm.MTOCIManifest}}
 			lr.expected = man
 			for _, n := range eligible {
-				if r, ok := w.host[n].Repos[repoSrc]; ok {
+				if r, ok := w.host[n].Repos[w.repoOn(n, repoSrc)]; ok {
 					if _, ok := r.Tags["v1"]; ok {
 						lr.anyHas = true
 						lr.hasHosts[n] = true
@@ -235,7 +249,23 @@ func runL1Once(c Case, ev *evid.Collector) (vs []*evid.Violation, inconclusive s
 		}
 		lr.start = w.m.Requests()
 		lr.called = time.Since(w.t0)
-		resp, err := cl.Do(ctx, req)
+		// context state of this logical request
+		rctx, rcancel := context.WithCancel(ctx)
+		switch rq.Ctx {
+		case "cancelled":
+			rcancel()
+		case "deadline":
+			rcancel()
+			rctx, rcancel = context.WithTimeout(ctx, time.Duration(max(rq.CtxK, 1))*time.Millisecond)
+		case "cancel-at":
+			st, k, cf := lr.start, max(rq.CtxK, 1), rcancel
+			w.m.OnArrive = func(e *rm.Entry) {
+				if e.Seq-st+1 >= k {
+					cf()
+				}
+			}
+		}
+		resp, err := cl.Do(rctx, req)
 		lr.err = err
 		if err == nil {
 			lr.status = resp.HTTPResponse().StatusCode
@@ -250,14 +280,16 @@ func runL1Once(c Case, ev *evid.Collector) (vs []*evid.Violation, inconclusive s
 		if resp != nil && resp.HTTPResponse() != nil {
 			_ = resp.Close()
 		}
+		rcancel()
+		w.m.OnArrive = nil
 		lr.end = w.m.Requests()
 		lrs = append(lrs, lr)
 		// state predicate behind "every operation terminates": once a logical request is
 		// finished and closed, every per-host concurrency slot it took is free again
 		for _, n := range w.names {
-			q := cl.GetThrottle(n)
+			q := cl.GetThrottle(c.cname(n))
 			var rel []func()
-			for k := 0; k < l1Slots; k++ {
+			for k := 0; k < slots; k++ {
 				fn, _ := q.TryAcquire(context.Background(), reqmeta.Data{Kind: reqmeta.Query})
 				if fn == nil {
 					break
@@ -267,7 +299,7 @@ func runL1Once(c Case, ev *evid.Collector) (vs []*evid.Violation, inconclusive s
 			for _, fn := range rel {
 				fn()
 			}
-			if len(rel) < l1Slots && slotLeak == nil {
+			if len(rel) < slots && slotLeak == nil {
 				sig := "throttle-slot-leaked"
 				for _, e := range w.m.Entries()[lr.start:lr.end] {
 					if e.Fault == "truncate" {
@@ -276,7 +308,7 @@ func runL1Once(c Case, ev *evid.Collector) (vs []*evid.Violation, inconclusive s
 				}
 				slotLeak = evid.V(sig, "after logical request %d (%s %s) had completed and was closed, host %s has only %d of its %d concurrency slots free: "+
 					"a slot taken for this request was never released (with the default of 3 slots per host the 4th request would wait forever)\n%s",
-					len(lrs)-1, rq.Method, rq.Target, short(n), len(rel), l1Slots, dumpLog(w.m.Entries()[lr.start:lr.end]))
+					len(lrs)-1, rq.Method, rq.Target, short(n), len(rel), slots, dumpLog(w.m.Entries()[lr.start:lr.end]))
 			}
 		}
 		if slotLeak != nil {
@@ -297,7 +329,8 @@ func runL1Once(c Case, ev *evid.Collector) (vs []*evid.Violation, inconclusive s
 			hitLetters[e.Fault] = true
 		}
 	}
-	classes := []string{"layer:L1", fmt.Sprintf("limit:%d", c.Limit), fmt.Sprintf("mirrors:%d", len(c.Mirrors)), fmt.Sprintf("lrs:%d", len(c.Reqs))}
+	classes := []string{"layer:L1", fmt.Sprintf("limit:%d", c.Limit), fmt.Sprintf("mirrors:%d", min(len(c.Mirrors), 4)), fmt.Sprintf("lrs:%d", len(c.Reqs))}
+	classes = append(classes, dimClasses(c)...)
 	for f := range hitLetters {
 		classes = append(classes, "hit:"+f)
 	}
@@ -382,7 +415,7 @@ func runL1Once(c Case, ev *evid.Collector) (vs []*evid.Violation, inconclusive s
 	// (4) + (5)
 	var groups []group
 	for _, lr := range lrs {
-		groups = append(groups, group{start: lr.start, end: lr.end, called: lr.called, read: (lr.req.Method == "GET" || lr.req.Method == "HEAD") && !lr.req.NoMirrors})
+		groups = append(groups, group{start: lr.start, end: lr.end, called: lr.called, taint: lr.req.Ctx != "", read: (lr.req.Method == "GET" || lr.req.Method == "HEAD") && !lr.req.NoMirrors})
 	}
 	for _, v := range w.analyseLog(es, logOpts{sequential: true, groups: groups, backsOff: func(e *rm.Entry) bool {
 		lr := lrOf(e)
@@ -411,10 +444,27 @@ func runL1Once(c Case, ev *evid.Collector) (vs []*evid.Violation, inconclusive s
 				spoiled = true
 			}
 		}
+		if rq := lr.req; rq.Ctx != "" {
+			// a request whose context ends is allowed to fail, and what it leaves behind in the
+			// client (a transport error booked on a host) is not a delivered fault of the alphabet
+			if rq.Ctx == "cancelled" && lr.err == nil {
+				add(evid.V("cancelled-context-request-succeeded", "logical request %d (%s %s) was called with an already cancelled context and returned no error (status %d, %d requests sent)", i, rq.Method, rq.Target, lr.status, lr.end-lr.start))
+			}
+			spoiled = true
+		}
 		if spoiled {
 			break
 		}
 		n := lr.end - lr.start
+		if lr.req.Method == "HEAD" {
+			// a host with disableHead costs an attempt without a request, and cannot serve a HEAD
+			n += w.noHeadHosts()
+			for _, h := range w.names {
+				if w.spec[h].NoHead {
+					delete(lr.hasHosts, h)
+				}
+			}
+		}
 		ok := lr.err == nil && lr.status >= 200 && lr.status < 300 && lr.readErr == nil
 		if !lr.anyHas || lr.req.Target == "missing" {
 			if ok && lr.req.Method != "PUT" {
